@@ -70,7 +70,9 @@ reg(Spec(
 
 def c02_runs(tier, seed):
     n = q(tier, 16000, 1200000)
-    runs = [RunSpec("eval", "Q", "plain", n), RunSpec("eval", "d", "plain", n)]
+    runs = [RunSpec("eval", "Q", "plain", n), RunSpec("eval", "d", "plain", n),
+            RunSpec("pool", "Q", "plain", q(tier, 160, 20000)),
+            RunSpec("pool", "d", "plain", q(tier, 320, 40000))]
     if tier == "thorough":
         runs += [RunSpec("eval", "f", "plain", n // 2),
                  RunSpec("eval", "ld", "plain", n // 2),
@@ -90,7 +92,12 @@ reg(Spec(
           "result is exactly zero; inside it equals the model value of a piece "
           "whose closed interval contains x (either neighbour at a shared grid "
           "point); front()/back() return the window's end points bit-exactly "
-          "and throw BSplineException for an empty support. Non-trivial: "
+          "and throw BSplineException for an empty support. In addition the "
+          "pool machine (see C03) evaluates every object it has just written "
+          "at every grid point and midpoint after every step of its "
+          "histories, so evaluation is also observed after assignments "
+          "(same and lower order), moves and in-place updates of objects "
+          "that were evaluated before. Non-trivial: "
           "non-zero spline with at least one inside evaluation; distinct by "
           "(order, window, grid, coefficients)."),
     required=["window:whole-grid", "window:one-interval",
@@ -98,12 +105,14 @@ reg(Spec(
               "window:suffix-window", "window:sub-window", "x:grid-point",
               "x:just-outside-left", "x:just-outside-right",
               "x:just-inside-left", "x:just-inside-right", "x:far-outside",
-              "frontback:empty-throws", "frontback:ends-checked"] +
+              "frontback:empty-throws", "frontback:ends-checked",
+              "c02:evaluations-in-history"] +
              ["order:%d" % p for p in range(7)],
     assumptions=[DYADIC, MODEL, "NaN abscissae are not judged; for a "
                  "point-like support front()/back() may return the point or "
                  "throw"],
-    evaluations=["inside-checked", "outside-checked"],
+    evaluations=["inside-checked", "outside-checked",
+                 "c02:evaluations-in-history"],
     technique="runtime monitor: reference-model oracle over generated "
               "splines and boundary-focused abscissae"))
 
@@ -142,6 +151,128 @@ reg(Spec(
     evaluations="applied",
     technique="runtime monitor: reference-model oracle over a compiled "
               "catalogue of operator instantiations and generated operands"))
+
+# ------------------------------------------------ generated programs C05-C07
+from . import exprgen as XG  # noqa: E402
+import os  # noqa: E402
+
+GEN_DIR = os.path.join(B.CACHE, "gen")
+
+
+def expr_runs(tier, seed, flavour="plain", scalars=("Q", "d"), nrandom=None,
+              cases_per_tu=None, per_tu=8):
+    nrandom = nrandom if nrandom is not None else q(tier, 24, 400)
+    cases = cases_per_tu if cases_per_tu is not None else q(tier, 3600, 36000)
+    runs = []
+    for sc in scalars:
+        exact = sc == "Q"
+        tus = XG.programs(seed, nrandom, exact, per_tu, GEN_DIR,
+                          "q" if exact else "f")
+        for path, h, texts in tus:
+            base = os.path.basename(path)[len("gen_expr_"):-len(".cpp")]
+            runs.append(RunSpec("expr", sc, flavour, cases, source=path,
+                                name="expr-" + base, shards=2))
+    return runs
+
+
+EXPR_RULE = ("programs: a committed catalogue of 51 operator expressions "
+             "(every scalar overload c*E E*c E/c E+c c+E E-c c-E -E with the "
+             "spline's own type and with int/long/unsigned/size_t (and, for "
+             "floating types, float/double/long double) scalars, sums of "
+             "different output sizes, products, the commutator d/dx x - x d/dx, "
+             "the example Hamiltonians, spline-valued factors) plus a "
+             "VERIF_SEED-dependent random set drawn from the grammar "
+             "E ::= I | X<n> | Dx<n> | SplineOperator{f} | c*E | E*c | E/c | "
+             "E+c | c+E | E-c | c-E | -E | E+E | E-E | E*E (depth <= 4, output "
+             "order <= 8); the C++ text (temporaries only, minimal parentheses) "
+             "and the ModelExpr mirror are printed from one AST. Each "
+             "expression is instantiated for operand orders 0..3 inside "
+             "operator*, LinearForm and (in pairs, four order pairs) "
+             "BilinearForm. Per case: grid of 3..10 points, operand windows "
+             "(empty, point-like, whole, sub-window; 12 relative placements of "
+             "(a,b) for forms), three factor splines of orders 0,1,2 whose "
+             "windows are whole / empty / point-like / ending inside / "
+             "starting inside / equal to the operand's window / random, on the "
+             "operand's grid object or an equal twin, four run-time scalars. ")
+
+
+def c05_runs(tier, seed):
+    runs = expr_runs(tier, seed)
+    runs += [RunSpec("pool", "Q", "plain", q(tier, 160, 10000))]
+    return runs
+
+
+reg(Spec(
+    "C05", "operator expressions act as the differential expression they spell",
+    c05_runs,
+    rule=EXPR_RULE + "C05 oracle: denote(E*s) == ModelExpr(E) applied to every "
+         "stored polynomial of s (a factor contributes v*p where it has that "
+         "interval and 0 elsewhere), result window == operand window; exact "
+         "for Q, C16 bound with the absolute interpretation of the expression "
+         "for floating types. Non-trivial: the exact result is non-zero; "
+         "distinct by (expression, operand, factors, scalars).",
+    required=["apply", "apply:order0", "apply:order3",
+              "factor-window:ends-inside-operand",
+              "factor-window:starts-inside-operand", "factor-window:empty",
+              "factor-window:point-like"],
+    assumptions=[DYADIC, MODEL, "expression types are sampled (catalogue + "
+                 "random set per seed), not enumerated; operand orders 0..3"],
+    evaluations="apply",
+    technique="runtime monitor over generated programs: each expression is "
+              "compiled against the real headers and its results compared "
+              "with an interpreter of the same AST over the reference model"))
+
+
+def c06_runs(tier, seed):
+    return expr_runs(tier, seed)
+
+
+reg(Spec(
+    "C06", "bilinear forms == exact integral of the two transformed splines",
+    c06_runs,
+    rule=EXPR_RULE + "C06 oracle: BilinearForm{E1,E2}(a,b) == sum over the "
+         "intervals common to both windows of the exact integral of "
+         "ModelExpr(E1)(a)*ModelExpr(E2)(b), 0 without a common interval; "
+         "through the library only (Q): swap symmetry, linearity in the first "
+         "argument, BilinearForm{E2} == identity on the left, ScalarProduct "
+         "== BilinearForm{} == plain integral of a*b. Non-trivial: exact "
+         "value non-zero.",
+    required=["bilinear", "bilinear:metamorphic",
+              "bilinear:no-common-interval", "bilinear:parity:oddxodd",
+              "bilinear:parity:evenxodd", "bilinear:parity:oddxeven",
+              "bilinear:parity:evenxeven"] +
+             ["bilinear:place:" + p for p in
+              ["EQ", "A_IN_B", "B_IN_A", "PARTIAL_L", "PARTIAL_R", "TOUCH",
+               "GAP", "A_EMPTY", "B_EMPTY", "BOTH_EMPTY", "A_POINT",
+               "B_POINT"]],
+    assumptions=[DYADIC, MODEL, "expression pairs (E_i, E_i+1) of each "
+                 "generated translation unit, spline order pairs (0,1) (2,0) "
+                 "(1,3) (3,2)"],
+    evaluations="bilinear",
+    technique="runtime monitor over generated programs: exact-integral "
+              "oracle plus metamorphic relations through the library"))
+
+
+def c07_runs(tier, seed):
+    return expr_runs(tier, seed)
+
+
+reg(Spec(
+    "C07", "linear forms == exact integral; bilinear == linear of the product",
+    c07_runs,
+    rule=EXPR_RULE + "C07 oracle: LinearForm{E}(a) == sum over a's intervals "
+         "of the exact integral of ModelExpr(E)(a), 0 for interval-free a, "
+         "== LinearForm{}(E*a) through the library; and for every bilinear "
+         "case BilinearForm{E1,E2}(a,b) == LinearForm{}((E1*a)*(E2*b)) "
+         "exactly (Q). Non-trivial: exact value non-zero.",
+    required=["linear", "linear:interval-free", "linear:outsize-parity:odd",
+              "linear:outsize-parity:even", "linear:vs-apply",
+              "bilinear:metamorphic"] +
+             ["linear:outsize:%d" % i for i in range(1, 9)],
+    assumptions=[DYADIC, MODEL],
+    evaluations=["linear", "bilinear:metamorphic"],
+    technique="runtime monitor over generated programs: exact-integral "
+              "oracle plus the bilinear/linear consistency relation"))
 
 # ------------------------------------------------- pool machine: C03/10/14/15
 PLACEMENTS = ["EQ", "A_IN_B", "B_IN_A", "PARTIAL_L", "PARTIAL_R", "TOUCH",
@@ -265,7 +396,8 @@ reg(Spec(
          "operator or assignment, both sides of a move, nothing for any other "
          "call and nothing for a call that throws) must be bit-identical; the "
          "vectors behind the two shared grids never change. " + POOL_NT,
-    required=["c14:bystanders-compared", "step:fail-add-assign",
+    required=["c14:bystanders-compared", "c14:evaluations-repeated",
+              "step:fail-add-assign",
               "step:fail-sub-assign", "step:copy-construct",
               "step:copy-assign", "step:mul-assign", "step:add-assign"],
     assumptions=["histories of 150 steps; orders 0..4"],
